@@ -811,4 +811,692 @@ theorem hdrFdeForAddress_eq_find (c : Cfg) (bases : Bases) (h : Hdr) (frame : By
         omega
 
 
+/-! ### totality of entry parsing and iteration -/
+
+theorem u8_normal (r : Rd) : r.u8.Normal := by
+  unfold Rd.u8; split <;> simp [Out.Normal]
+
+theorem readCstr_normal (r : Rd) : (readCstr r).Normal := by
+  unfold readCstr; split <;> simp [Out.Normal]
+
+theorem parsePointerEncoding_normal (r : Rd) : (parsePointerEncoding r).Normal := by
+  unfold parsePointerEncoding
+  apply normal_bind (u8_normal r)
+  intro ⟨b, r'⟩ _
+  dsimp only
+  split <;> simp [Out.Normal]
+
+theorem augLoop_normal (m : Mode) (e : Endian) (bases : Bases) (asz : Nat) (hs : SizeOk m asz) :
+    ∀ (s : Bytes) pf aug data input, (augLoop m e bases asz s pf aug data input).Normal := by
+  intro s
+  induction s with
+  | nil => intro pf aug data input; simp [augLoop, Out.Normal]
+  | cons ch s ih =>
+    intro pf aug data input
+    simp only [augLoop]
+    split
+    · split
+      · simp [Out.Normal]
+      · apply normal_bind (lift_normal _ _ (Props.C01.uleb_total _))
+        intro ⟨len, input'⟩ _
+        apply normal_bind (split_normal _ _)
+        intro ⟨d, input''⟩ _
+        exact ih _ _ _ _
+    · split
+      · cases data with
+        | none => simp [Out.Normal]
+        | some d =>
+          dsimp only
+          apply normal_bind (parsePointerEncoding_normal d)
+          intro ⟨enc, d'⟩ _
+          exact ih _ _ _ _
+      · split
+        · cases data with
+          | none => simp [Out.Normal]
+          | some d =>
+            dsimp only
+            apply normal_bind (parsePointerEncoding_normal d)
+            intro ⟨enc, d'⟩ _
+            apply normal_bind (pep_normal m e enc _ d' hs)
+            intro ⟨p, d''⟩ _
+            exact ih _ _ _ _
+        · split
+          · cases data with
+            | none => simp [Out.Normal]
+            | some d =>
+              dsimp only
+              apply normal_bind (parsePointerEncoding_normal d)
+              intro ⟨enc, d'⟩ _
+              exact ih _ _ _ _
+          · split
+            · exact ih _ _ _ _
+            · simp [Out.Normal]
+
+theorem readCieId_normal (c : Cfg) (format : Format) (rest : Rd) : (readCieId c format rest).Normal := by
+  unfold readCieId
+  split <;> exact lift_normal _ _ (Props.C01.fixed_total _ _ _)
+
+theorem parsePrefix_normal (c : Cfg) (r : Rd) : (parsePrefix c r).Normal := by
+  unfold parsePrefix
+  apply normal_bind (lift_normal _ _ (Props.C01.initial_length_total _ _ _))
+  intro ⟨⟨length, format⟩, r'⟩ _
+  dsimp only
+  split
+  · simp [Out.Normal]
+  · apply normal_bind (split_normal _ _)
+    intro ⟨rest, r''⟩ _
+    apply normal_bind (readCieId_normal _ _ _)
+    intro ⟨id, rest'⟩ _
+    simp [Out.Normal]
+
+theorem sizeOk_of_addressSize {m : Mode} {bs : Bytes} {v : Nat} {rest : Bytes}
+    (h : readAddressSize bs = .ok (v, rest)) : SizeOk m v := by
+  obtain ⟨b, _, _, hv⟩ := (readAddressSize_ok_iff bs v rest).mp h
+  left; omega
+
+theorem readAddressSize_normal (bs : Bytes) : (readAddressSize bs).Normal := by
+  unfold readAddressSize
+  split
+  · simp [Out.Normal]
+  · split <;> simp [Out.Normal]
+
+theorem lift_ok_inv {α : Type} {f : Bytes → Out (α × Bytes)} {r : Rd} {a : α} {r' : Rd}
+    (h : r.lift f = .ok (a, r')) : f r.bs = .ok (a, r'.bs) := by
+  unfold Rd.lift at h
+  cases hf : f r.bs with
+  | ok p =>
+    obtain ⟨a', rest⟩ := p
+    rw [hf] at h
+    simp only [Out.bind_ok, Out.pure_eq, Out.ok.injEq, Prod.mk.injEq] at h
+    rw [← h.1, ← h.2]
+  | err x => rw [hf] at h; simp at h
+  | panic w => rw [hf] at h; simp at h
+  | diverge => rw [hf] at h; simp at h
+
+theorem cieAddressSize_normal (c : Cfg) (version : Nat) (rest : Rd) :
+    (cieAddressSize c version rest).Normal := by
+  unfold cieAddressSize
+  split
+  · apply normal_bind (lift_normal _ _ (readAddressSize_normal _))
+    intro ⟨asz, rest'⟩ _
+    apply normal_bind (u8_normal _)
+    intro ⟨seg, rest''⟩ _
+    dsimp only
+    split <;> simp [Out.Normal]
+  · simp [Out.Normal]
+
+theorem cieAddressSize_sizeOk (c : Cfg) (version : Nat) (rest : Rd) (a : Nat × Rd)
+    (hs : SizeOk c.m c.asz) (ha : cieAddressSize c version rest = .ok a) : SizeOk c.m a.1 := by
+  unfold cieAddressSize at ha
+  split at ha
+  · cases hl : rest.lift readAddressSize with
+    | ok x =>
+      obtain ⟨asz, rest'⟩ := x
+      rw [hl] at ha
+      simp only [Out.bind_ok] at ha
+      have hsz : SizeOk c.m asz := sizeOk_of_addressSize (lift_ok_inv hl)
+      cases hu : rest'.u8 with
+      | ok y =>
+        obtain ⟨seg, rest''⟩ := y
+        rw [hu] at ha
+        simp only [Out.bind_ok] at ha
+        split at ha
+        · simp at ha
+        · simp only [Out.pure_eq, Out.ok.injEq] at ha
+          rw [← ha]; exact hsz
+      | err x => rw [hu] at ha; simp at ha
+      | panic w => rw [hu] at ha; simp at ha
+      | diverge => rw [hu] at ha; simp at ha
+    | err x => rw [hl] at ha; simp at ha
+    | panic w => rw [hl] at ha; simp at ha
+    | diverge => rw [hl] at ha; simp at ha
+  · simp only [Out.pure_eq, Out.ok.injEq] at ha
+    rw [← ha]; exact hs
+
+theorem cieRar_normal (version : Nat) (rest : Rd) : (cieRar version rest).Normal := by
+  unfold cieRar
+  split
+  · exact u8_normal _
+  · apply normal_bind (lift_normal _ _ (Props.C01.uleb_total _))
+    intro ⟨v, rest'⟩ _
+    dsimp only
+    split <;> simp [Out.Normal]
+
+theorem cieAug_normal (c : Cfg) (bases : Bases) (asz : Nat) (augStr : Bytes) (rest : Rd)
+    (hs : SizeOk c.m asz) : (cieAug c bases asz augStr rest).Normal := by
+  unfold cieAug
+  split
+  · simp [Out.Normal]
+  · apply normal_bind (augLoop_normal c.m c.e bases asz hs _ _ _ _ _)
+    intro ⟨a, rest'⟩ _
+    simp [Out.Normal]
+
+theorem cieFromPrefix_normal (c : Cfg) (bases : Bases) (p : Prefix) (hs : SizeOk c.m c.asz) :
+    (cieFromPrefix c bases p).Normal := by
+  unfold cieFromPrefix
+  apply normal_bind (u8_normal _)
+  intro ⟨version, rest⟩ _
+  dsimp only
+  split
+  · simp [Out.Normal]
+  · apply normal_bind (readCstr_normal _)
+    intro ⟨augStr, rest⟩ _
+    apply normal_bind (cieAddressSize_normal _ _ _)
+    intro ⟨asz, rest⟩ hok
+    have hsz : SizeOk c.m asz := cieAddressSize_sizeOk c _ _ _ hs hok
+    apply normal_bind (lift_normal _ _ (Props.C01.uleb_total _))
+    intro ⟨caf, rest⟩ _
+    apply normal_bind (lift_normal _ _ (Props.C01.sleb_total _))
+    intro ⟨daf, rest⟩ _
+    apply normal_bind (cieRar_normal _ _)
+    intro ⟨rar, rest⟩ _
+    apply normal_bind (cieAug_normal c bases asz augStr rest hsz)
+    intro ⟨aug, rest⟩ _
+    simp [Out.Normal]
+
+/-- a CIE that parsed has an address size `ones_sized` can handle -/
+theorem cieFromPrefix_sizeOk (c : Cfg) (bases : Bases) (p : Prefix) (cie : Cie)
+    (hs : SizeOk c.m c.asz) (h : cieFromPrefix c bases p = .ok cie) : SizeOk c.m cie.asz := by
+  unfold cieFromPrefix at h
+  cases h1 : p.rest.u8 with
+  | ok x1 =>
+    obtain ⟨version, rest⟩ := x1
+    rw [h1] at h; simp only [Out.bind_ok] at h
+    split at h
+    · simp at h
+    · cases h2 : readCstr rest with
+      | ok x2 =>
+        obtain ⟨augStr, rest⟩ := x2
+        rw [h2] at h; simp only [Out.bind_ok] at h
+        cases h3 : cieAddressSize c version rest with
+        | ok x3 =>
+          have hsz := cieAddressSize_sizeOk c _ _ _ hs h3
+          obtain ⟨asz, rest⟩ := x3
+          rw [h3] at h; simp only [Out.bind_ok] at h
+          cases h4 : rest.lift Leb.unsigned with
+          | ok x4 =>
+            obtain ⟨caf, rest⟩ := x4
+            rw [h4] at h; simp only [Out.bind_ok] at h
+            cases h5 : rest.lift Leb.signed with
+            | ok x5 =>
+              obtain ⟨daf, rest⟩ := x5
+              rw [h5] at h; simp only [Out.bind_ok] at h
+              cases h6 : cieRar version rest with
+              | ok x6 =>
+                obtain ⟨rar, rest⟩ := x6
+                rw [h6] at h; simp only [Out.bind_ok] at h
+                cases h7 : cieAug c bases asz augStr rest with
+                | ok x7 =>
+                  obtain ⟨aug, rest⟩ := x7
+                  rw [h7] at h
+                  simp only [Out.bind_ok, Out.pure_eq, Out.ok.injEq] at h
+                  rw [← h]; exact hsz
+                | err x => rw [h7] at h; simp at h
+                | panic w => rw [h7] at h; simp at h
+                | diverge => rw [h7] at h; simp at h
+              | err x => rw [h6] at h; simp at h
+              | panic w => rw [h6] at h; simp at h
+              | diverge => rw [h6] at h; simp at h
+            | err x => rw [h5] at h; simp at h
+            | panic w => rw [h5] at h; simp at h
+            | diverge => rw [h5] at h; simp at h
+          | err x => rw [h4] at h; simp at h
+          | panic w => rw [h4] at h; simp at h
+          | diverge => rw [h4] at h; simp at h
+        | err x => rw [h3] at h; simp at h
+        | panic w => rw [h3] at h; simp at h
+        | diverge => rw [h3] at h; simp at h
+      | err x => rw [h2] at h; simp at h
+      | panic w => rw [h2] at h; simp at h
+      | diverge => rw [h2] at h; simp at h
+  | err x => rw [h1] at h; simp at h
+  | panic w => rw [h1] at h; simp at h
+  | diverge => rw [h1] at h; simp at h
+
+
+theorem partialFromPrefix_normal (c : Cfg) (p : Prefix) : (partialFromPrefix c p).Normal := by
+  unfold partialFromPrefix; split <;> simp [Out.Normal]
+
+theorem parseCfiEntry_normal (c : Cfg) (bases : Bases) (r : Rd) (hs : SizeOk c.m c.asz) :
+    (parseCfiEntry c bases r).Normal := by
+  unfold parseCfiEntry
+  apply normal_bind (parsePrefix_normal c r)
+  intro ⟨op, r'⟩ _
+  cases op with
+  | none => simp [Out.Normal]
+  | some p =>
+    dsimp only
+    split
+    · apply normal_bind (cieFromPrefix_normal c bases p hs)
+      intro cie _; simp [Out.Normal]
+    · apply normal_bind (partialFromPrefix_normal c p)
+      intro f _; simp [Out.Normal]
+
+theorem readInitialLength_consumes (e : Endian) (bs : Bytes) (v : Nat × Format) (rest : Bytes)
+    (h : readInitialLength e 64 bs = .ok (v, rest)) : rest.length + 4 ≤ bs.length := by
+  rw [readInitialLength_cases] at h
+  split at h
+  · simp at h
+  · rename_i h4
+    simp only at h
+    split at h
+    · simp only [Out.ok.injEq, Prod.mk.injEq] at h
+      rw [← h.2, List.length_drop]; omega
+    · split at h
+      · split at h
+        · simp at h
+        · split at h
+          · simp only [Out.ok.injEq, Prod.mk.injEq] at h
+            rw [← h.2, List.length_drop]; omega
+          · simp at h
+      · simp at h
+
+theorem parsePrefix_consumes (c : Cfg) (r : Rd) (op : Option Prefix) (r' : Rd)
+    (h : parsePrefix c r = .ok (op, r')) : r'.bs.length + 4 ≤ r.bs.length := by
+  unfold parsePrefix at h
+  cases h1 : r.lift (readInitialLength c.e 64) with
+  | ok x =>
+    obtain ⟨⟨length, format⟩, r1⟩ := x
+    have hc := readInitialLength_consumes _ _ _ _ (lift_ok_inv h1)
+    rw [h1] at h
+    simp only [Out.bind_ok] at h
+    split at h
+    · simp only [Out.pure_eq, Out.ok.injEq, Prod.mk.injEq] at h
+      rw [← h.2]; exact hc
+    · cases h2 : r1.split length with
+      | ok y =>
+        obtain ⟨rest, r2⟩ := y
+        rw [h2] at h
+        simp only [Out.bind_ok] at h
+        have hr2 : r2.bs.length ≤ r1.bs.length := by
+          unfold Rd.split at h2
+          split at h2
+          · simp only [Out.ok.injEq, Prod.mk.injEq] at h2
+            rw [← h2.2]; simp [List.length_drop]
+          · simp at h2
+        cases h3 : readCieId c format rest with
+        | ok z =>
+          obtain ⟨id, rest'⟩ := z
+          rw [h3] at h
+          simp only [Out.bind_ok, Out.pure_eq, Out.ok.injEq, Prod.mk.injEq] at h
+          rw [← h.2]; omega
+        | err x => rw [h3] at h; simp at h
+        | panic w => rw [h3] at h; simp at h
+        | diverge => rw [h3] at h; simp at h
+      | err x => rw [h2] at h; simp at h
+      | panic w => rw [h2] at h; simp at h
+      | diverge => rw [h2] at h; simp at h
+  | err x => rw [h1] at h; simp at h
+  | panic w => rw [h1] at h; simp at h
+  | diverge => rw [h1] at h; simp at h
+
+theorem parseCfiEntry_consumes (c : Cfg) (bases : Bases) (r : Rd) (oe : Option Entry) (r' : Rd)
+    (h : parseCfiEntry c bases r = .ok (oe, r')) : r'.bs.length + 4 ≤ r.bs.length := by
+  unfold parseCfiEntry at h
+  cases h1 : parsePrefix c r with
+  | ok x =>
+    obtain ⟨op, r1⟩ := x
+    have hc := parsePrefix_consumes c r op r1 h1
+    rw [h1] at h
+    simp only [Out.bind_ok] at h
+    cases op with
+    | none =>
+      simp only [Out.pure_eq, Out.ok.injEq, Prod.mk.injEq] at h
+      rw [← h.2]; exact hc
+    | some p =>
+      dsimp only at h
+      split at h
+      · cases h2 : cieFromPrefix c bases p with
+        | ok cie =>
+          rw [h2] at h
+          simp only [Out.bind_ok, Out.pure_eq, Out.ok.injEq, Prod.mk.injEq] at h
+          rw [← h.2]; exact hc
+        | err x => rw [h2] at h; simp at h
+        | panic w => rw [h2] at h; simp at h
+        | diverge => rw [h2] at h; simp at h
+      · cases h2 : partialFromPrefix c p with
+        | ok f =>
+          rw [h2] at h
+          simp only [Out.bind_ok, Out.pure_eq, Out.ok.injEq, Prod.mk.injEq] at h
+          rw [← h.2]; exact hc
+        | err x => rw [h2] at h; simp at h
+        | panic w => rw [h2] at h; simp at h
+        | diverge => rw [h2] at h; simp at h
+  | err x => rw [h1] at h; simp at h
+  | panic w => rw [h1] at h; simp at h
+  | diverge => rw [h1] at h; simp at h
+
+/-- `CfiEntriesIter::next` terminates (fuel = remaining bytes + 1 suffices) and never panics;
+every item it yields consumed at least 4 bytes -/
+theorem next_normal (c : Cfg) (bases : Bases) (hs : SizeOk c.m c.asz) :
+    ∀ fuel (r : Rd), r.bs.length < fuel →
+      (next c bases fuel r).Normal ∧
+      ∀ en r', next c bases fuel r = .ok (some en, r') → r'.bs.length + 4 ≤ r.bs.length := by
+  intro fuel
+  induction fuel with
+  | zero => intro r h; omega
+  | succ fuel ih =>
+    intro r hf
+    rw [next]
+    split
+    · exact ⟨by simp [Out.Normal], by intro en r' h; simp at h⟩
+    · have hn := parseCfiEntry_normal c bases r hs
+      cases hp : parseCfiEntry c bases r with
+      | ok x =>
+        obtain ⟨oe, r1⟩ := x
+        have hc := parseCfiEntry_consumes c bases r oe r1 hp
+        cases oe with
+        | some en =>
+          refine ⟨by simp [Out.Normal], ?_⟩
+          intro en' r' h
+          simp only [Out.ok.injEq, Prod.mk.injEq] at h
+          rw [← h.2]; exact hc
+        | none =>
+          dsimp only
+          split
+          · exact ⟨by simp [Out.Normal], by intro en r' h; simp at h⟩
+          · obtain ⟨h1, h2⟩ := ih r1 (by omega)
+            refine ⟨h1, ?_⟩
+            intro en r' h
+            have := h2 en r' h
+            omega
+      | err x => exact ⟨by simp [Out.Normal], by intro en r' h; simp at h⟩
+      | panic w => rw [hp] at hn; simp [Out.Normal] at hn
+      | diverge => rw [hp] at hn; simp [Out.Normal] at hn
+
+/-- iterating a whole section ends (`Ok(None)` or an error) within `length + 1` items -/
+theorem entries_normal (c : Cfg) (bases : Bases) (hs : SizeOk c.m c.asz) :
+    ∀ fuel (r : Rd), r.bs.length < fuel → (entries c bases fuel r).2.Normal := by
+  intro fuel
+  induction fuel with
+  | zero => intro r h; omega
+  | succ fuel ih =>
+    intro r hf
+    rw [entries]
+    obtain ⟨hn, hc⟩ := next_normal c bases hs (r.bs.length + 1) r (by omega)
+    cases hx : next c bases (r.bs.length + 1) r with
+    | ok x =>
+      obtain ⟨oe, r'⟩ := x
+      cases oe with
+      | some en =>
+        have := hc en r' hx
+        exact ih r' (by omega)
+      | none => simp [Out.Normal]
+    | err x => simp [Out.Normal]
+    | panic w => rw [hx] at hn; simp [Out.Normal] at hn
+    | diverge => rw [hx] at hn; simp [Out.Normal] at hn
+
+
+theorem cieFromOffset_normal (c : Cfg) (bases : Bases) (sec : Bytes) (off : Nat) (hs : SizeOk c.m c.asz) :
+    (cieFromOffset c bases sec off).Normal := by
+  unfold cieFromOffset
+  apply normal_bind (skip_normal _ _)
+  intro r _
+  apply normal_bind (parsePrefix_normal c r)
+  intro ⟨op, r'⟩ _
+  cases op with
+  | none => simp [Out.Normal]
+  | some p =>
+    dsimp only
+    split
+    · simp [Out.Normal]
+    · exact cieFromPrefix_normal c bases p hs
+
+theorem cieFromOffset_sizeOk (c : Cfg) (bases : Bases) (sec : Bytes) (off : Nat) (cie : Cie)
+    (hs : SizeOk c.m c.asz) (h : cieFromOffset c bases sec off = .ok cie) : SizeOk c.m cie.asz := by
+  unfold cieFromOffset at h
+  cases h1 : (⟨0, sec⟩ : Rd).skip off with
+  | ok r =>
+    rw [h1] at h; simp only [Out.bind_ok] at h
+    cases h2 : parsePrefix c r with
+    | ok x =>
+      obtain ⟨op, r'⟩ := x
+      rw [h2] at h; simp only [Out.bind_ok] at h
+      cases op with
+      | none => simp at h
+      | some p =>
+        dsimp only at h
+        split at h
+        · simp at h
+        · exact cieFromPrefix_sizeOk c bases p cie hs h
+    | err x => rw [h2] at h; simp at h
+    | panic w => rw [h2] at h; simp at h
+    | diverge => rw [h2] at h; simp at h
+  | err x => rw [h1] at h; simp at h
+  | panic w => rw [h1] at h; simp at h
+  | diverge => rw [h1] at h; simp at h
+
+theorem parseAddresses_normal (c : Cfg) (cie : Cie) (params : PeParams) (r : Rd)
+    (hs : SizeOk c.m params.asz) : (parseAddresses c cie params r).Normal := by
+  unfold parseAddresses
+  split
+  · rename_i enc _
+    apply normal_bind (pep_normal c.m c.e enc params r hs)
+    intro ⟨p, r'⟩ hok
+    -- the encoding went through `parse_encoded_pointer`: it is valid and not `omit`
+    have hvalid : isValidEncoding enc = true ∧ enc ≠ 0xff := by
+      unfold parseEncodedPointer at hok
+      split at hok
+      · simp at hok
+      · rename_i hv
+        split at hok
+        · simp at hok
+        · rename_i ho; exact ⟨by simpa using hv, ho⟩
+    apply normal_bind (pev_normal c.e enc params.asz r' (validFormat hvalid.1 hvalid.2).1)
+    intro ⟨range, r''⟩ _
+    simp [Out.Normal]
+  · apply normal_bind (lift_normal _ _ (Props.C01.address_total _ _ _))
+    intro ⟨i, r'⟩ _
+    apply normal_bind (lift_normal _ _ (Props.C01.address_total _ _ _))
+    intro ⟨range, r''⟩ _
+    simp [Out.Normal]
+
+theorem fdeAugData_normal (c : Cfg) (cie : Cie) (params : PeParams) (initial : Nat) (rest : Rd)
+    (hs : SizeOk c.m params.asz) : (fdeAugData c cie params initial rest).Normal := by
+  unfold fdeAugData
+  split
+  · apply normal_bind (lift_normal _ _ (Props.C01.uleb_total _))
+    intro ⟨len, rest'⟩ _
+    apply normal_bind (split_normal _ _)
+    intro ⟨d, rest''⟩ _
+    dsimp only
+    split
+    · rename_i enc _
+      apply normal_bind (pep_normal c.m c.e enc { bases := params.bases, funcBase := some initial, asz := params.asz } d hs)
+      intro ⟨ptr, _⟩ _
+      simp [Out.Normal]
+    · simp [Out.Normal]
+  · simp [Out.Normal]
+
+theorem parseRest_normal (c : Cfg) (bases : Bases) (sec : Bytes) (p : PartialFde)
+    (hs : SizeOk c.m c.asz) : (parseRest c bases sec p).Normal := by
+  unfold parseRest
+  apply normal_bind (cieFromOffset_normal c bases sec _ hs)
+  intro cie hcie
+  have hsz := cieFromOffset_sizeOk c bases sec _ cie hs hcie
+  apply normal_bind (parseAddresses_normal c cie _ _ hsz)
+  intro ⟨⟨initial, range⟩, rest⟩ _
+  apply normal_bind (fdeAugData_normal c cie _ initial rest hsz)
+  intro ⟨lsda, rest'⟩ _
+  simp [Out.Normal]
+
+theorem parseRest_sizeOk (c : Cfg) (bases : Bases) (sec : Bytes) (p : PartialFde) (f : Fde)
+    (hs : SizeOk c.m c.asz) (h : parseRest c bases sec p = .ok f) : SizeOk c.m f.cie.asz := by
+  unfold parseRest at h
+  cases h1 : cieFromOffset c bases sec p.cieOffset with
+  | ok cie =>
+    have hsz := cieFromOffset_sizeOk c bases sec _ cie hs h1
+    rw [h1] at h; simp only [Out.bind_ok] at h
+    cases h2 : parseAddresses c cie { bases := bases.ehFrame, funcBase := none, asz := cie.asz } p.rest with
+    | ok x =>
+      obtain ⟨⟨initial, range⟩, rest⟩ := x
+      rw [h2] at h; simp only [Out.bind_ok] at h
+      cases h3 : fdeAugData c cie { bases := bases.ehFrame, funcBase := none, asz := cie.asz } initial rest with
+      | ok y =>
+        obtain ⟨lsda, rest'⟩ := y
+        rw [h3] at h
+        simp only [Out.bind_ok, Out.pure_eq, Out.ok.injEq] at h
+        rw [← h]; exact hsz
+      | err x => rw [h3] at h; simp at h
+      | panic w => rw [h3] at h; simp at h
+      | diverge => rw [h3] at h; simp at h
+    | err x => rw [h2] at h; simp at h
+    | panic w => rw [h2] at h; simp at h
+    | diverge => rw [h2] at h; simp at h
+  | err x => rw [h1] at h; simp at h
+  | panic w => rw [h1] at h; simp at h
+  | diverge => rw [h1] at h; simp at h
+
+theorem contains_normal (m : Mode) (f : Fde) (a : Nat) (hs : SizeOk m f.cie.asz) :
+    (f.contains m a).Normal := by
+  unfold Fde.contains Fde.endAddress
+  split
+  · apply normal_bind (wrappingAddSized_normal _ _ _ _ hs)
+    intro e _; simp [Out.Normal]
+  · simp [Out.Normal]
+
+theorem scan_normal (c : Cfg) (bases : Bases) (sec : Bytes) (a : Nat) (hs : SizeOk c.m c.asz) :
+    ∀ (l : List Entry) (fin : Out Unit), fin.Normal → (scan c bases sec a l fin).Normal := by
+  intro l
+  induction l with
+  | nil => intro fin hf; cases fin <;> simp_all [scan, Out.Normal]
+  | cons en l ih =>
+    intro fin hf
+    cases en with
+    | cie ci => simp only [scan]; exact ih fin hf
+    | fde p =>
+      simp only [scan]
+      apply normal_bind (parseRest_normal c bases sec p hs)
+      intro f hfok
+      apply normal_bind (contains_normal c.m f a (parseRest_sizeOk c bases sec p f hs hfok))
+      intro ct _
+      split
+      · simp [Out.Normal]
+      · exact ih fin hf
+
+theorem fdeForAddress_normal (c : Cfg) (bases : Bases) (sec : Bytes) (a : Nat) (hs : SizeOk c.m c.asz) :
+    (fdeForAddress c bases sec a).Normal := by
+  unfold fdeForAddress
+  rw [fdeForAddressLoop_eq_scan]
+  exact scan_normal c bases sec a hs _ _ (entries_normal c bases hs _ _ (by simp))
+
+theorem fdeFromOffset_normal (c : Cfg) (bases : Bases) (sec : Bytes) (off : Nat) (hs : SizeOk c.m c.asz) :
+    (fdeFromOffset c bases sec off).Normal := by
+  unfold fdeFromOffset
+  apply normal_bind (skip_normal _ _)
+  intro r _
+  apply normal_bind (parsePrefix_normal c r)
+  intro ⟨op, r'⟩ _
+  cases op with
+  | none => simp [Out.Normal]
+  | some p =>
+    dsimp only
+    split
+    · simp [Out.Normal]
+    · apply normal_bind (partialFromPrefix_normal c p)
+      intro pf _
+      exact parseRest_normal c bases sec pf hs
+
+theorem fdeFromOffset_sizeOk (c : Cfg) (bases : Bases) (sec : Bytes) (off : Nat) (f : Fde)
+    (hs : SizeOk c.m c.asz) (h : fdeFromOffset c bases sec off = .ok f) : SizeOk c.m f.cie.asz := by
+  unfold fdeFromOffset at h
+  cases h1 : (⟨0, sec⟩ : Rd).skip off with
+  | ok r =>
+    rw [h1] at h; simp only [Out.bind_ok] at h
+    cases h2 : parsePrefix c r with
+    | ok x =>
+      obtain ⟨op, r'⟩ := x
+      rw [h2] at h; simp only [Out.bind_ok] at h
+      cases op with
+      | none => simp at h
+      | some p =>
+        dsimp only at h
+        split at h
+        · simp at h
+        · cases h3 : partialFromPrefix c p with
+          | ok pf =>
+            rw [h3] at h; simp only [Out.bind_ok] at h
+            exact parseRest_sizeOk c bases sec pf f hs h
+          | err x => rw [h3] at h; simp at h
+          | panic w => rw [h3] at h; simp at h
+          | diverge => rw [h3] at h; simp at h
+    | err x => rw [h2] at h; simp at h
+    | panic w => rw [h2] at h; simp at h
+    | diverge => rw [h2] at h; simp at h
+  | err x => rw [h1] at h; simp at h
+  | panic w => rw [h1] at h; simp at h
+  | diverge => rw [h1] at h; simp at h
+
+theorem hdrCount_normal (e : Endian) (cntEnc tblEnc asz : Nat) (r : Rd)
+    (hv : isValidEncoding cntEnc = true) : (hdrCount e cntEnc tblEnc asz r).Normal := by
+  unfold hdrCount
+  split
+  · simp [Out.Normal]
+  · rename_i ho
+    split
+    · simp [Out.Normal]
+    · exact pev_normal e cntEnc asz r (validFormat hv (by omega)).1
+
+theorem parsePointerEncoding_valid (r : Rd) (b : Nat) (r' : Rd)
+    (h : parsePointerEncoding r = .ok (b, r')) : isValidEncoding b = true := by
+  unfold parsePointerEncoding at h
+  cases h1 : r.u8 with
+  | ok x =>
+    obtain ⟨b', r1⟩ := x
+    rw [h1] at h; simp only [Out.bind_ok] at h
+    split at h
+    · rename_i hv
+      simp only [Out.pure_eq, Out.ok.injEq, Prod.mk.injEq] at h
+      rw [← h.1]; exact hv
+    · simp at h
+  | err x => rw [h1] at h; simp at h
+  | panic w => rw [h1] at h; simp at h
+  | diverge => rw [h1] at h; simp at h
+
+theorem parseHdr_normal (m : Mode) (e : Endian) (bases : Bases) (asz : Nat) (sec : Bytes)
+    (hs : SizeOk m asz) : (parseHdr m e bases asz sec).Normal := by
+  unfold parseHdr
+  apply normal_bind (u8_normal _)
+  intro ⟨version, r⟩ _
+  dsimp only
+  split
+  · simp [Out.Normal]
+  · apply normal_bind (parsePointerEncoding_normal _)
+    intro ⟨ptrEnc, r⟩ _
+    apply normal_bind (parsePointerEncoding_normal _)
+    intro ⟨cntEnc, r⟩ hc
+    apply normal_bind (parsePointerEncoding_normal _)
+    intro ⟨tblEnc, r⟩ _
+    dsimp only
+    split
+    · simp [Out.Normal]
+    · apply normal_bind (pep_normal m e ptrEnc _ r hs)
+      intro ⟨ptr, r⟩ _
+      apply normal_bind (hdrCount_normal e cntEnc tblEnc asz r (parsePointerEncoding_valid _ _ _ hc))
+      intro ⟨cnt, r⟩ _
+      simp [Out.Normal]
+
+theorem pointerToOffset_normal (h : Hdr) (p : Ptr) : (pointerToOffset h p).Normal := by
+  unfold pointerToOffset
+  apply normal_bind (toDirect_normal _)
+  intro a _
+  apply normal_bind (toDirect_normal _)
+  intro b _
+  split <;> simp [Out.Normal]
+
+theorem hdrFdeForAddress_normal (c : Cfg) (bases : Bases) (h : Hdr) (frame : Bytes) (a : Nat)
+    (hs : SizeOk c.m c.asz) (hh : SizeOk c.m h.asz) (hc : h.fdeCount < 2 ^ 64) :
+    (hdrFdeForAddress c bases h frame a).Normal := by
+  unfold hdrFdeForAddress
+  apply normal_bind (lookup_normal c.m c.e h bases a hh hc)
+  intro ptr _
+  apply normal_bind (pointerToOffset_normal h ptr)
+  intro off _
+  apply normal_bind (fdeFromOffset_normal c bases frame off hs)
+  intro f hf
+  apply normal_bind (contains_normal c.m f a (fdeFromOffset_sizeOk c bases frame off f hs hf))
+  intro ct _
+  split <;> simp [Out.Normal]
+
+
 end Gimli.CfiEntry
